@@ -210,6 +210,9 @@ func (lex *Lexer) ret(n int) {
 	lex.top = lex.top - n
 	if lex.top < 0 {
 		lex.top = 0
+		// unmatched `}`: nothing to return to, stack[0] is the state of a call that has long returned
+		lex.p++
+		return
 	}
 	if lex.top < len(lex.stack) {
 		lex.cs = lex.stack[lex.top]
